@@ -297,3 +297,21 @@ class LinePoints:
             mon.register_callback(self.TOOL, mon.events.LINE, None)
             mon.free_tool_id(self.TOOL)
             self.active = False
+
+
+class ReiterableSource(CountingSource):
+    """the same counting source offered as a re-iterable host object: it has __iter__ only (no __next__, no
+    __len__), every iterator it hands out draws from the one shared pull counter"""
+    __next__ = None
+
+    def __iter__(self):
+        self.iters += 1
+        outer = self
+
+        class _It:
+            def __iter__(self_):
+                return self_
+
+            def __next__(self_):
+                return CountingSource.__next__(outer)
+        return _It()
